@@ -128,11 +128,15 @@ theorem readRange_of_claims {f : Nat → R LVal} {g : Nat → R DVal} {c : LVal 
     rfl
 
 theorem u8Claim_must {t : Target} {x : UInt8} {d : DVal} (h : u8Claim t x = must d) : u8As t x = .ok d := by
-  cases hu : u8As t x with
-  | ok d' =>
-    cases t <;> simp [u8Claim, hu, na, must] at h <;> rw [h]
-  | error e =>
-    cases t <;> simp [u8Claim, hu, na, must] at h
+  cases t <;> simp only [u8Claim, mustFail, fail, must, reduceCtorEq, Except.ok.injEq, Option.some.injEq] at h
+  case any => subst h; rfl
+  case ignored => subst h; rfl
+  case int ty =>
+    split at h
+    · rename_i hr
+      simp only [Except.ok.injEq, Option.some.injEq] at h
+      subst h; simp [u8As, hr]
+    · cases h
 
 theorem mapM_u8As_of_claims (t : Target) : ∀ (b : Bytes) (ds : List DVal),
     claimList (b.map (u8Claim t)) = .ok (some ds) → b.mapM (u8As t) = .ok ds
@@ -212,7 +216,7 @@ theorem sound_seq {t : Target} (hS : Sound t) : Sound (.seq t) := by
         obtain ⟨ds, hm, rfl⟩ := castBinSeq_must hc
         simp only [readAs, binaryElems, hty, Bool.false_eq_true, if_false, hg, getRequired, bind, Except.bind, pure,
           Except.pure, hm]
-      · simp [cast, bytesVal, hty, na, must] at hc
+      · simp [cast, bytesVal, hty, isBinaryLike, mustFail, fail, must] at hc
   | bytesView ty v views buffers =>
     rcases view_get h hu with ⟨rfl, hg⟩ | ⟨b, rfl, hg⟩
     · simp [cast, mustFail, must, fail] at hc
@@ -221,7 +225,7 @@ theorem sound_seq {t : Target} (hS : Sound t) : Sound (.seq t) := by
         obtain ⟨ds, hm, rfl⟩ := castBinSeq_must hc
         simp only [readAs, binaryElems, hty, Bool.false_eq_true, if_false, hg, getRequired, bind, Except.bind, pure,
           Except.pure, hm]
-      · simp [cast, bytesVal, hty, na, must] at hc
+      · simp [cast, bytesVal, hty, isBinaryLike, mustFail, fail, must] at hc
   | fixedSizeBinary n v data =>
     rcases fsb_get h hn with ⟨rfl, hg⟩ | ⟨b, rfl, hg⟩
     · simp [cast, mustFail, must, fail] at hc
@@ -312,13 +316,87 @@ theorem sound_tupleStruct {ts : Targets} (hS : ∀ t ∈ Targets.toList ts, Soun
   simp only [readAs]
   exact tupleVisit_sound hS a i lv d h hn hp hu hc
 
+/-- `ByteBuf`: from a List / LargeList column every element by value as `u8`; otherwise a scalar read -/
+theorem sound_byteBuf : Sound .byteBuf := by
+  intro a i lv d h hn hp hu hc
+  by_cases hl : ∃ lg v offs fm el, a = .list lg v offs fm el
+  · obtain ⟨lg, v, offs, fm, el, rfl⟩ := hl
+    obtain ⟨hi, hlv⟩ := list_inv h
+    rcases hlv with rfl | ⟨xs, hxs, rfl⟩
+    · simp [cast, castScalar, mustFail, must, fail] at hc
+    · simp only [cast] at hc
+      obtain ⟨ds, hcl, hd⟩ := andThenL_must hc
+      cases must_inj hd
+      obtain ⟨h0, h1, _, hseq⟩ := rangeAt_ok hxs
+      unfold physical at hp
+      simp only [utf8Ok] at hu
+      have hr := readRange_of_claims (g := fun j => scalar Fixes.all (.int .u8) el j >>= accept (.int .u8))
+        (c := fun v => castScalar (.int .u8) el v) (P := fun v => utf8Ok v = true)
+        (fun j v d hj hv' hcv => scalar_sound (t := .int .u8) rfl el j v d hj (new_list_inv hn) hp hv' hcv)
+        _ _ xs ds hseq (utf8OkList_mem xs hu) hcl
+      simp only [readAs, listRange_eval hi h0 h1, bind, Except.bind] at hr ⊢
+      rw [hr]
+      rfl
+  · have hc' : cast .byteBuf a lv = castScalar .byteBuf a lv := by
+      cases a <;> first | (simp only [cast]; done) | exact absurd ⟨_, _, _, _, _, rfl⟩ hl
+    have hr : readAs Fixes.all .byteBuf a i = (scalar Fixes.all .byteBuf a i >>= accept .byteBuf) := by
+      cases a <;> first | rfl | exact absurd ⟨_, _, _, _, _, rfl⟩ hl
+    rw [hc'] at hc
+    rw [hr]
+    exact scalar_sound rfl a i lv d h hn hp hu hc
+
 /-! ### maps: from a struct column (field names as keys) and from a map column -/
 
-theorem structAsMap_sound {k v : Target} (hk : k = .string ∨ k = .any) (hS : Sound v) :
+theorem pairClaim_some {k v : Claim} {p : DVal × DVal} (h : pairClaim k v = .ok (some p)) :
+    k = must p.1 ∧ v = must p.2 := by
+  unfold pairClaim at h
+  split at h
+  · cases h
+  · cases h
+  · cases h; exact ⟨rfl, rfl⟩
+  · cases h
+
+theorem castVariantStr_must : ∀ (vs : TVariants) (b : Bytes) (d : DVal), castVariantStr vs b = must d → strVariant vs b = .ok d
+  | .nil, b, d, h => by simp [castVariantStr, mustFail, must, fail] at h
+  | .cons n k rest, b, d, h => by
+    unfold castVariantStr at h
+    unfold strVariant
+    split at h
+    · rename_i hb
+      simp only [hb, if_true]
+      cases k <;> simp only [mustFail, fail, must, reduceCtorEq, Except.ok.injEq, Option.some.injEq] at h
+      subst h; rfl
+    · rename_i hb
+      simp only [hb, Bool.false_eq_true, if_false]
+      exact castVariantStr_must rest b d h
+
+/-- a field name as map key: what `mapKeyClaim` demands is what serde's `StrDeserializer` hands to the key's visitor -/
+theorem mapKeyClaim_must {k : Target} {name : String} {d : DVal} (h : mapKeyClaim k name = must d) :
+    strDeAs k name = .ok d := by
+  cases k <;> simp only [mapKeyClaim, mustFail, fail, must, reduceCtorEq, Except.ok.injEq, Option.some.injEq] at h
+  case any => subst h; rfl
+  case ignored => subst h; rfl
+  case string => subst h; rfl
+  case byteBuf => subst h; rfl
+  case char =>
+    unfold strDeAs
+    split at h
+    · rename_i c hc
+      simp only [Except.ok.injEq, Option.some.injEq] at h
+      subst h; simp [hc]
+    · cases h
+  case «enum» byIndex vs =>
+    unfold strDeAs
+    cases byIndex
+    · simp only [Bool.false_eq_true, if_false] at h ⊢
+      exact castVariantStr_must vs _ d h
+    · simp at h
+
+theorem structAsMap_sound {k v : Target} (hS : Sound v) :
     ∀ (fs : ArrFields) (i : Nat) (vals : List (String × LVal)) (es : List (DVal × DVal)),
     decodeFieldsAt fs i = .ok vals → newFields Fixes.all fs = .ok () → physicalFields fs = true →
     utf8OkFields (LFields.ofList vals) = true →
-    claimStructAsMap (mapKeyOf k) (fun c w => cast v c w) fs (LFields.ofList vals) = .ok (some es) →
+    claimStructAsMap (mapKeyClaim k) (fun c w => cast v c w) fs (LFields.ofList vals) = .ok (some es) →
     (fs.toList.mapM fun (p : FieldMeta × Arr) => do
         let kk ← strDeAs k p.1.name
         let vv ← readAs Fixes.all v p.2 i
@@ -336,30 +414,12 @@ theorem structAsMap_sound {k v : Target} (hk : k = .string ∨ k = .any) (hS : S
     simp only [LFields.ofList, utf8OkFields, Bool.and_eq_true] at hu
     simp only [LFields.ofList, claimStructAsMap] at hc
     obtain ⟨e, es', h1, h2, rfl⟩ := consClaim_some hc
-    have ih := structAsMap_sound hk hS rest i r es' hr hnr hp.2 hu.2 h2
-    cases hcv : cast v a w with
-    | error err => rw [hcv] at h1; simp at h1
-    | ok o =>
-      cases o with
-      | none => rw [hcv] at h1; simp at h1
-      | some d =>
-        rw [hcv] at h1
-        simp only [Except.ok.injEq, Option.some.injEq] at h1
-        subst h1
-        have e1 := hS a i w d hw hna hp.1 hu.1 hcv
-        have ek : strDeAs k fm.name = .ok (mapKeyOf k fm.name) := by
-          rcases hk with rfl | rfl <;> rfl
-        rw [ArrFields.toList, List.mapM_cons, ih]
-        simp only [ek, e1, bind, Except.bind, pure, Except.pure]
-
-theorem pairClaim_some {k v : Claim} {p : DVal × DVal} (h : pairClaim k v = .ok (some p)) :
-    k = must p.1 ∧ v = must p.2 := by
-  unfold pairClaim at h
-  split at h
-  · cases h
-  · cases h
-  · cases h; exact ⟨rfl, rfl⟩
-  · cases h
+    have ih := structAsMap_sound (k := k) hS rest i r es' hr hnr hp.2 hu.2 h2
+    obtain ⟨hk1, hv1⟩ := pairClaim_some h1
+    have e1 := hS a i w e.2 hw hna hp.1 hu.1 hv1
+    have ek := mapKeyClaim_must hk1
+    rw [ArrFields.toList, List.mapM_cons, ih]
+    simp only [ek, e1, bind, Except.bind, pure, Except.pure]
 
 theorem readRange_pairs_of_claims {f1 f2 : Nat → R LVal} {g1 g2 : Nat → R DVal} {c1 c2 : LVal → Claim} {P : LVal → Prop}
     (hfg1 : ∀ j v d, f1 j = .ok v → P v → c1 v = must d → g1 j = .ok d)
@@ -397,16 +457,11 @@ theorem sound_map {k v : Target} (hK : Sound k) (hV : Sound v) : Sound (.map k v
     rcases hlv with rfl | ⟨vals, hvals, rfl⟩
     · simp [cast, mustFail, must, fail] at hc
     · simp only [cast] at hc
-      have hk : k = .string ∨ k = .any := by
-        cases k <;> simp [na, must] at hc ⊢
-      have hc' : andThenE (claimStructAsMap (mapKeyOf k) (fun c w => cast v c w) fs (LFields.ofList vals))
-          (fun es => must (.map (DEntries.ofList es))) = must d := by
-        rcases hk with rfl | rfl <;> exact hc
-      obtain ⟨es, hcl, hd⟩ := andThenE_must hc'
+      obtain ⟨es, hcl, hd⟩ := andThenE_must hc
       cases must_inj hd
       unfold physical at hp
       simp only [utf8Ok] at hu
-      have := structAsMap_sound hk hV fs i vals es hvals (new_struct_inv hn) hp hu hcl
+      have := structAsMap_sound hV fs i vals es hvals (new_struct_inv hn) hp hu hcl
       simp only [readAs, structItem_ok hi, bind, Except.bind, pure, Except.pure] at this ⊢
       rw [this]
   | map vb offs mm ks vs =>
@@ -613,7 +668,7 @@ theorem sound_enum {byIndex : Bool} {vs : TVariants} (hV : ∀ p ∈ TVariants.t
     rcases bytes_get h hu with ⟨rfl, hg⟩ | ⟨b, rfl, hg⟩
     · simp [cast, mustFail, must, fail] at hc
     · cases hty : isUtf8Ty ty
-      · simp [cast, bytesVal, hty, na, must] at hc
+      · simp [cast, bytesVal, hty, isBinaryLike, mustFail, fail, must] at hc
       · simp only [cast, bytesVal, hty, if_true, isStringLike, Bool.true_and] at hc
         cases byIndex
         · simp only [Bool.not_false, if_true] at hc
@@ -625,7 +680,7 @@ theorem sound_enum {byIndex : Bool} {vs : TVariants} (hV : ∀ p ∈ TVariants.t
     rcases view_get h hu with ⟨rfl, hg⟩ | ⟨b, rfl, hg⟩
     · simp [cast, mustFail, must, fail] at hc
     · cases hty : isUtf8View ty
-      · simp [cast, bytesVal, hty, na, must] at hc
+      · simp [cast, bytesVal, hty, isBinaryLike, mustFail, fail, must] at hc
       · simp only [cast, bytesVal, hty, if_true, isStringLike, Bool.true_and] at hc
         cases byIndex
         · simp only [Bool.not_false, if_true] at hc
